@@ -71,6 +71,9 @@ package mvp6_1
 //@   assume-before (*memoryManagementUnit).flush: wfMMU(m.memoryManagementUnit) && m.memoryManagementUnit.l3.lineLength == 64 && allocated(m.memoryManagementUnit.ctx.Memory) && (forall j :: 0 <= j && j < len(m.memoryManagementUnit.l3.lines) ==> !sameArray(m.memoryManagementUnit.l3.lines[j].Data, m.memoryManagementUnit.ctx.Memory) && int32(m.memoryManagementUnit.l3.lines[j].Boundary[0]) <= 1073741824)
 //@   requires wired(m)
 //@   nooverflow cycle, m.counterFlush
+//@   -- (C03) an execute unit's error ends the run only if no flush was requested in the same cycle
+//@   -- by a unit scanned before it: a wrong-path instruction must not make the run fail (known finding F22)
+//@   return 0: !flush
 //@   loop 0: invariant cycle >= 0 && wired(m)
 //@   loop 0: exit writesDone(m)
 //@   loop 0: exit executeUnitsIdle(m)
